@@ -551,3 +551,126 @@ def rule_log_filters(ctx, r, why):
                 f"{ci.name}.filter lets `Would submit Index` through and drops `Would submit Align` (verdicts {verdicts[:2]}): records are told apart by their template, not "
                 f"their text - {why}", flt.where)
     r.ok("src/gwf::log-filters", f"{n} logging.Filter class(es) defined by the package", "src/gwf/cli.py:1")
+
+
+# --- "this value only ever reaches a message" (a small forward dataflow over the resolved program) -------------------------------------------------------
+LOG_METHODS = {"debug", "info", "warning", "warn", "error", "exception", "critical", "log"}
+MESSAGE_SINKS = {"print", "click.echo", "click.secho", "click.echo_via_pager", "warnings.warn", "sys.stdout.write", "sys.stderr.write"}
+MESSAGE_WRAPPERS = {"click.format_filename", "click.style", "str", "repr", "os.fspath", "shlex.quote", "textwrap.shorten", "textwrap.fill"}
+STR_PREDICATES = {"startswith", "endswith", "__eq__", "__contains__", "isidentifier", "isprintable"}
+STR_RESHAPERS = {"format", "join", "ljust", "rjust", "center", "strip", "rstrip", "lstrip", "replace", "upper", "lower", "title", "expandtabs"}
+
+
+def _is_logger_call(call, finfo, idx):
+    import ast
+    if not (isinstance(call.func, ast.Attribute) and call.func.attr in LOG_METHODS):
+        return False
+    from ..index import dotted
+    base = dotted(call.func.value)
+    if base is None:
+        return False
+    canon = idx.canon(call.func, finfo.module) or ""
+    if canon.startswith("logging."):
+        return True
+    # a module-level `name = logging.getLogger(...)`
+    for st in finfo.module.tree.body:
+        if isinstance(st, ast.Assign) and any(isinstance(t, ast.Name) and t.id == base for t in st.targets) and isinstance(st.value, ast.Call):
+            c = idx.canon(st.value.func, finfo.module) or ""
+            if c in ("logging.getLogger", "logging.Logger"):
+                return True
+    return False
+
+
+def flows_only_to_messages(ctx, finfo, node, depth=0, _seen=None):
+    """True iff the value of expression `node` (in function `finfo`) can only end up in a log/terminal message or in a comparison: followed through wrappers
+    (format_filename, str.format, f-strings, %), single local names, and - when the function returns it - through every resolved call site (3 levels)."""
+    import ast
+    from ..index import parent, walk_no_nested
+    idx = ctx.index
+    _seen = _seen if _seen is not None else set()
+    if (finfo.key, id(node)) in _seen:
+        return True
+    _seen.add((finfo.key, id(node)))
+    p = parent(node)
+    if p is None:
+        return False
+    if isinstance(p, (ast.JoinedStr, ast.FormattedValue, ast.Starred, ast.Tuple, ast.List, ast.IfExp)) and not (isinstance(p, ast.IfExp) and node is p.test):
+        return flows_only_to_messages(ctx, finfo, p, depth, _seen)
+    if isinstance(p, (ast.Compare, ast.BoolOp)) or (isinstance(p, (ast.If, ast.While, ast.IfExp, ast.Assert)) and node is p.test) or isinstance(p, ast.UnaryOp):
+        return True
+    if isinstance(p, ast.BinOp):
+        if isinstance(p.op, (ast.Mod, ast.Add)):
+            return flows_only_to_messages(ctx, finfo, p, depth, _seen)
+        return False
+    if isinstance(p, ast.keyword):
+        p2 = parent(p)
+        return isinstance(p2, ast.Call) and _call_passes(ctx, finfo, p2, node, depth, _seen)
+    if isinstance(p, ast.Attribute) and node is p.value:
+        call = parent(p)
+        if isinstance(call, ast.Call) and call.func is p:
+            if p.attr in STR_PREDICATES:
+                return True
+            if p.attr in STR_RESHAPERS:
+                return flows_only_to_messages(ctx, finfo, call, depth, _seen)
+        return False
+    if isinstance(p, ast.Call):
+        if node is p.func:
+            return False
+        return _call_passes(ctx, finfo, p, node, depth, _seen)
+    if isinstance(p, ast.Expr):
+        return True
+    if isinstance(p, (ast.Assign, ast.AnnAssign)):
+        targets = p.targets if isinstance(p, ast.Assign) else [p.target]
+        if len(targets) != 1 or not isinstance(targets[0], ast.Name):
+            return False
+        name = targets[0].id
+        uses = [n for n in walk_no_nested(finfo.node) if isinstance(n, ast.Name) and n.id == name and isinstance(n.ctx, ast.Load)]
+        return all(flows_only_to_messages(ctx, finfo, u, depth, _seen) for u in uses)
+    if isinstance(p, ast.Return):
+        if depth >= 3:
+            return False
+        sites = ctx.resolver.call_sites(finfo)
+        return all(flows_only_to_messages(ctx, g, c, depth + 1, _seen) for g, c in sites)
+    return False
+
+
+def _call_passes(ctx, finfo, call, arg, depth, _seen):
+    import ast
+    idx = ctx.index
+    if _is_logger_call(call, finfo, idx):
+        return True
+    canon = (idx.canon(call.func, finfo.module) if isinstance(call.func, (ast.Name, ast.Attribute)) else None) or ""
+    if canon in MESSAGE_SINKS:
+        return True
+    if canon in MESSAGE_WRAPPERS:
+        return flows_only_to_messages(ctx, finfo, call, depth, _seen)
+    if isinstance(call.func, ast.Attribute) and call.func.attr in ("format", "join") and isinstance(call.func.value, ast.Constant):
+        return flows_only_to_messages(ctx, finfo, call, depth, _seen)
+    # a function of the package: the parameter it is bound to must itself only reach messages there
+    if depth >= 3:
+        return False
+    try:
+        callees = ctx.resolver.callees(call, finfo, {})
+    except Exception:
+        return False
+    from ..index import FuncInfo, walk_no_nested
+    fis = [getattr(c, "finfo", c) for c in callees]
+    if not fis or not all(isinstance(fi, FuncInfo) for fi in fis):
+        return False
+    for fi in fis:
+        params = fi.positional_params()
+        if fi.cls is not None and params and params[0] in ("self", "cls"):
+            params = params[1:]
+        pname = None
+        for i, a in enumerate(call.args):
+            if a is arg and i < len(params):
+                pname = params[i]
+        for k in call.keywords:
+            if k.value is arg:
+                pname = k.arg
+        if pname is None:
+            return False
+        uses = [n for n in walk_no_nested(fi.node) if isinstance(n, ast.Name) and n.id == pname and isinstance(n.ctx, ast.Load)]
+        if not all(flows_only_to_messages(ctx, fi, u, depth + 1, _seen) for u in uses):
+            return False
+    return True
